@@ -100,9 +100,11 @@ func C10(tier string) int {
 func C12(tier string) int {
 	return RunHX(HXCheck{
 		Prop: "C12", Level: "model_checking", Scopes: []string{"c12-flat", "c12-backup", "c12-life", "c12-nested", "c12-fault"},
-		Rule:        "breadth-first enumeration of all programs within the bound; at every transaction boundary the file is decoded by boltfmt (explicit little-endian offsets of the published version-2 layout, own FNV-1a) and its logical content must equal the reference model (which the API dump is compared with as well), both meta pages must validate with the right slot/txid parity, page size and flags; plus the golden-file corpus of the pinned build",
+		Rule:        "breadth-first enumeration of all programs within the bound; at every transaction boundary the file is decoded by boltfmt (explicit little-endian offsets of the published version-2 layout, own FNV-1a) and its logical content must equal the reference model (which the API dump is compared with as well), both meta pages must validate with the right slot/txid parity, page size and flags; plus the golden-file corpus of the pinned build; plus hand-encoded version-2 files whose freelist page lists 65534..65536 (thorough: ..70001) ids (the 0xFFFF count convention), which must open with exactly those ids free under both backends, pass Tx.Check, accept a commit and decode again afterwards",
 		Assumptions: []string{"boltfmt shares no code with bbolt", "golden corpus: /verif/golden, written once by the pinned build (./run golden)"},
-		Extra:       goldenCheck,
+		Extra: func(tier string, cov map[string]interface{}) []string {
+			return append(goldenCheck(tier, cov), bigFreelistFiles(tier, cov)...)
+		},
 		Quick:       100 * time.Second, Thorough: 25 * time.Minute,
 	}, tier)
 }
